@@ -33,7 +33,23 @@ RULE = ("a case is one history: optional generation padding (empty commits so th
         "limitmb (run files)}; some histories also monitor index creation itself. Each monitored transaction is run "
         "once under the storage tap and EVERY storage event boundary is a crash point. A history is non-trivial when "
         "at least one committed transaction showed both outcomes (old before / new after the TOC rename); distinct = "
-        "distinct (theme, per-transaction (commit kind, finish, compound, front-end, op kinds, segments before)).")
+        "distinct (theme, per-transaction (commit kind, finish, compound, front-end, op kinds, segments before)). "
+        "Every third history ends with one transaction through a convenience method of the index object (FileIndex.optimize / "
+        "add_field / remove_field open and commit their own writers). Every fourth history has a SECOND index under another "
+        "name ('other' / 'MAIN2', storage.create_index(indexname=...), compound or loose) in the same directory: its files "
+        "(byte checksums) and its logical dump are part of every observation, before and after the fresh commit. "
+        "MULTI-PROCESS histories (theme 'mp'; first case of every shard, thorough: two per shard): 1-3 prelude commits, then "
+        "2 (thorough 2-4) transactions through whoosh.multiproc.MpWriter(procs 2 (thorough 2-3), batchsize 1-2) x {merged, "
+        "multisegment=True} x {commit default/merge=False/optimize, cancel} x {compound, loose} x {tiny limitmb}, 3-4 (thorough "
+        "3-7) added documents + sometimes one delete/update of an earlier document. The PARENT process is tapped; the forked "
+        "sub-writer processes run whoosh's real buffered files (a fork hook switches the inherited tap off in the child). "
+        "Crash points of an mp transaction = every storage event of the parent (while sub-writers live no read-only "
+        "equivalence is assumed) + extra sample points between the fed documents, before commit()/cancel() and inside "
+        "SubWriterTask.join() (the parent waits there without storage events). At a crash point all live sub-writers are "
+        "SIGSTOPped (seen stopped in /proc) while the directory is copied: the snapshot is the directory at one instant, with "
+        "whatever the children had handed to the OS - the state a crash of the whole process group leaves. Verdicts are the "
+        "same as for single-process transactions (old or new, searchable, writable, no orphan segment file - which includes "
+        "the sub-writers' segment files - after the next commit).")
 ASSUMPTIONS = [
     "process-crash model only (the statement's): the OS keeps every completed write()/rename()/unlink(); no power loss, "
     "no reordering below the OS, no torn sectors (whoosh never fsyncs)",
@@ -51,8 +67,20 @@ ASSUMPTIONS = [
     "by a crash are recorded as observations (leftover.*), not violations: they are not segment files",
     "the flip old->new is recorded (flip.at_toc_rename / flip.other) as evidence; the statement allows either state at "
     "any crash point, so its position is not itself a verdict",
-    "MpWriter (multi-process) transactions are not crash-enumerated: its sub-writers live in other processes that the "
-    "in-process tap does not see",
+    "MpWriter (multi-process) transactions are crash-enumerated at the granularity that is observable and sound: the storage "
+    "events of the PARENT process plus sample points; the sub-writers are not tapped (their unflushed user-space buffers are "
+    "simply not in the snapshot, exactly as after a real crash), so not every operation boundary of a CHILD is a crash point "
+    "and which child states are met depends on real timing (these cases do not replay exactly; sub-writer segment names are "
+    "re-seeded by CPython after fork). 'mid' prefix variants of the parent's open files are taken at a quarter of the mp "
+    "crash points (they are enumerated by the single-process histories). No real-SIGKILL cross-validation for mp transactions",
+    "an MpWriter transaction that exceeds 60 s has its sub-writers killed by the harness and is dropped without a verdict "
+    "(mp.watchdog_fired; the floors on mp.tx.completed keep such a run from counting as 'held'); sub-writer processes still "
+    "alive after cancel() (MpWriter.cancel only flags the parent's copy of the task objects) are an observation "
+    "(mp.obs.subwriters_alive_after_cancel) and are killed by the harness",
+    "files left in MAIN.tmp/ (job files, run files of the sub-writers) are not segment files: their survival is recorded "
+    "(leftover.tmpdir), not judged - the statement promises the removal of orphaned SEGMENT files",
+    "the neighbour index (second index name in the same directory) is only read, never written, during the history; "
+    "crash enumeration of the NEIGHBOUR's own commits with MAIN as the bystander is not done",
 ]
 SHARDS = {"quick": 4, "thorough": 16}
 BUDGET_S = {"quick": 65, "thorough": 600}
@@ -61,14 +89,25 @@ FLOORS = {
               "flip.at_toc_rename": 5, "reach.merge_small": 1, "reach.optimize_merge": 1, "reach.clear": 1,
               "reach.loose_commit": 1, "reach.cancel_or_exception": 1, "variant.flushed.evals": 100,
               "variant.mid.evals": 2000, "model.crosscheck": 15, "lock.stale_file_present": 4000,
-              "realkill.traces_validated": 2, "tx.generation_digit_boundary": 1},
+              "realkill.traces_validated": 2, "tx.generation_digit_boundary": 1,
+              # multi-process transactions (8 per quick run whatever the seed: 4 shards x 2)
+              "mp.tx.completed": 6, "mp.tx.merged.commit": 2, "mp.tx.multisegment.commit": 2, "mp.tx.merged.cancel": 1,
+              "mp.tx.multisegment.cancel": 1, "mp.tx.merged.commit.loose": 1, "mp.tx.merged.commit.compound": 1,
+              "mp.tx.both_outcomes": 3, "mp.crash_points": 800, "mp.crash_points.during_finish": 700,
+              "mp.crash_points.during_feed": 50, "mp.crash_points.children_alive": 150,
+              "mp.crash_points.with_subwriter_segment_files": 400, "mp.outcome.old": 900, "mp.outcome.new": 15,
+              "mp.samples.feed": 8, "neighbour.tx_monitored": 1, "tx.front.ixmethod": 1},
     # calibrated on runs made while the shared machine had a load average of 50-70 on 16 cores (36-59 histories
     # finished inside the time cap); an idle machine finishes about twice as many
     "thorough": {"crash_points": 15000, "evaluations.snapshot": 30000, "tx.committed": 30, "tx.both_outcomes": 30,
                  "flip.at_toc_rename": 30, "reach.merge_small": 2, "reach.optimize_merge": 4, "reach.clear": 5,
                  "reach.loose_commit": 8, "reach.cancel_or_exception": 8, "variant.flushed.evals": 600,
                  "variant.mid.evals": 12000, "model.crosscheck": 60, "lock.stale_file_present": 30000,
-                 "realkill.traces_validated": 20, "tx.generation_digit_boundary": 6},
+                 "realkill.traces_validated": 20, "tx.generation_digit_boundary": 6,
+                 "mp.tx.completed": 16, "mp.tx.merged.commit": 5, "mp.tx.multisegment.commit": 5, "mp.tx.both_outcomes": 8,
+                 "mp.crash_points": 3000, "mp.crash_points.children_alive": 500,
+                 "mp.crash_points.with_subwriter_segment_files": 1200, "mp.outcome.old": 3000, "mp.outcome.new": 50,
+                 "neighbour.tx_monitored": 4, "tx.front.ixmethod": 3},
 }
 
 VOCAB = ["alfa", "bravo", "charlie", "delta", "echo", "foxtrot", "golf", "hotel"]
